@@ -99,14 +99,27 @@ theorem invB_read {cfg s s'} {st : Stanza} (hA : InvA cfg s) (h : InvB cfg s) (h
       have := lookup_some hl
       simp at hs; subst hs
       constructor <;> simp only [matchesAt, matchesReq] at * <;> grind [InvA]
-    · simp at hs; subst hs
-      constructor <;> simp only [matchesAt, matchesReq] at * <;> grind
+    · split at hs <;>
+        (simp at hs; subst hs
+         constructor <;> simp only [matchesAt, matchesReq] at * <;> grind)
   · simp at hs
+
+theorem invB_readErr {cfg s s'} {i : Nat} (h : InvB cfg s) (hs : step cfg s (.readErr i) = some s') : InvB cfg s' := by
+  obtain ⟨h1, h2, h3, h4, h5, h6, h7⟩ := h
+  simp only [step] at hs
+  split at hs <;> (try split at hs) <;> (try split at hs) <;> (try simp at hs) <;> (try subst hs) <;>
+    (try (constructor <;> simp only [matchesAt, matchesReq, upd] at * <;> grind))
+
+theorem invB_closeOut {cfg s s'} (h : InvB cfg s) (hs : step cfg s .closeOut = some s') : InvB cfg s' := by
+  obtain ⟨h1, h2, h3, h4, h5, h6, h7⟩ := h
+  simp only [step] at hs
+  simp at hs; subst hs
+  exact ⟨h1, h2, h3, h4, h5, h6, h7⟩
 
 theorem invA_step {cfg s a s'} (h : InvA cfg s) (hs : step cfg s a = some s') : InvA cfg s' := by
   intro x j hx
-  cases a <;> simp only [step] at hs <;> (try split at hs) <;> (try split at hs) <;> (try simp at hs) <;> (try subst hs) <;>
-    simp only [upd] at hx ⊢ <;> grind [InvA]
+  cases a <;> simp only [step] at hs <;> (try split at hs) <;> (try split at hs) <;> (try split at hs) <;>
+    (try simp at hs) <;> (try subst hs) <;> (try simp only [upd] at hx ⊢) <;> grind [InvA]
 
 theorem invB_step {cfg s a s'} (hA : InvA cfg s) (h : InvB cfg s) (hs : step cfg s a = some s') : InvB cfg s' := by
   cases a with
@@ -120,6 +133,8 @@ theorem invB_step {cfg s a s'} (hA : InvA cfg s) (h : InvB cfg s) (hs : step cfg
   | close i => exact invB_close h hs
   | read st => exact invB_read hA h hs
   | abandon => exact invB_abandon h hs
+  | closeOut => exact invB_closeOut h hs
+  | readErr i => exact invB_readErr h hs
 
 theorem invA_init (cfg : Cfg) : InvA cfg init := by
   intro x j h; simp [init] at h
